@@ -33,6 +33,10 @@ from .srcmodel import FuncInfo, Model, body_without_docstring, AnalysisError
 
 S = Any  # S-expression
 
+# Inlining of single-definition locals bound to call results: 'std' (default, syntactic criterion, see _count_defs),
+# 'none' or 'all' (used by the self-test to show that the rules' verdicts do not hinge on inlining decisions).
+INLINE_POLICY = __import__("os").environ.get("FRAMELINT_INLINE", "std")
+
 
 def skey(s: S) -> str:
     return repr(s)
@@ -293,6 +297,21 @@ class CanonOptions:
     resolve_constants: bool = True                        # module-level literal constants (KW_*) become their value
 
 
+VALUE_BUILTINS = {"len", "min", "max", "abs", "float", "int", "str", "bool", "sum", "sorted", "list", "tuple", "dict", "set", "range",
+                  "enumerate", "zip", "isinstance", "round", "any", "all", "reversed", "frozenset", "sqrt", "combinations"}
+
+
+def _is_value_call(c: ast.Call) -> bool:
+    f = c.func
+    if isinstance(f, ast.Name):
+        return f.id in VALUE_BUILTINS or f.id in PAIR_FIELDS
+    if isinstance(f, ast.Attribute) and isinstance(f.value, ast.Name) and f.value.id == "math":
+        return True
+    if isinstance(f, ast.Attribute) and f.attr in ("items", "values", "keys", "get", "copy"):
+        return True
+    return False
+
+
 MUTATOR_METHODS = {"append", "extend", "insert", "pop", "popleft", "appendleft", "remove", "sort", "clear", "update",
                    "add", "setdefault", "discard", "reverse", "heappush"}
 
@@ -459,16 +478,31 @@ class Canon:
                 simple[name] = False
         # a local bound to the result of a call with side effects (or of unknown purity) is not inlined:
         # inlining would duplicate or reorder the effect (``fresh = self.newaux()`` used twice)
-        if self.model is not None:
+        # A local bound to an expression that contains a call (other than the fixed list of value-returning builtins
+        # and value-record constructors) is inlined only if it is used at most once: inlining then neither duplicates
+        # nor drops an effect.  The criterion is purely syntactic, so the canonical form of a function depends on
+        # that function's text only (never on an analysis of its callees).
+        uses: dict[str, int] = {}
+        for n in ast.walk(self.fi.node):
+            if isinstance(n, ast.Name) and isinstance(n.ctx, ast.Load):
+                uses[n.id] = uses.get(n.id, 0) + 1
+        policy = INLINE_POLICY
+        if policy != "all":
             for n in ast.walk(self.fi.node):
                 if isinstance(n, (ast.Assign, ast.AnnAssign)) and getattr(n, "value", None) is not None:
                     calls = [c for c in ast.walk(n.value) if isinstance(c, ast.Call)]
-                    if calls and not all(self.model.call_is_pure(self.fi, c) for c in calls):
-                        tgts = n.targets if isinstance(n, ast.Assign) else [n.target]
-                        for tg in tgts:
-                            for nn in ast.walk(tg):
-                                if isinstance(nn, ast.Name) and isinstance(nn.ctx, ast.Store) and nn.id in simple:
-                                    simple[nn.id] = False
+                    if not calls:
+                        continue
+                    simple_calls = all(_is_value_call(c) for c in calls)
+                    tgts = n.targets if isinstance(n, ast.Assign) else [n.target]
+                    names = [nn.id for tg in tgts for nn in ast.walk(tg) if isinstance(nn, ast.Name) and isinstance(nn.ctx, ast.Store)]
+                    for nm in names:
+                        if nm not in simple:
+                            continue
+                        if policy == "none":
+                            simple[nm] = False
+                        elif not simple_calls and (uses.get(nm, 0) > 1 or len(names) > 1):
+                            simple[nm] = False
         # a local bound to a freshly constructed object (other than the small value records) keeps its identity
         for n in ast.walk(self.fi.node):
             if isinstance(n, (ast.Assign, ast.AnnAssign)) and isinstance(getattr(n, "value", None), ast.Call):
@@ -925,6 +959,21 @@ def _is_strlike(s: S) -> bool:
                                            (s[0] == "c" and s[1] == ("g", "str")))
 
 
+def project_field(base: S, name: str) -> S:
+    """Shape(a, b).w -> a  (field projection on the small value records), otherwise the attribute node"""
+    if isinstance(base, tuple) and len(base) == 4 and base[0] == "c" and isinstance(base[1], tuple) and base[1][0] == "g" \
+            and base[1][1] in PAIR_FIELDS:
+        f = PAIR_FIELDS[base[1][1]]
+        args, kwargs = base[2], dict(base[3])
+        if name in f:
+            i = f.index(name)
+            if name in kwargs:
+                return kwargs[name]
+            if i < len(args) and len(args) + len(kwargs) == 2:
+                return args[i]
+    return ("a", base, name)
+
+
 def contains(s: S, sub: S) -> bool:
     if s == sub:
         return True
@@ -1038,7 +1087,7 @@ class Sigma:
         if tag in ("self", "v", "b", "u", "l", "pk", "pv", "pkw", "clsarg"):
             return s
         if tag == "a" and len(s) == 3 and isinstance(s[2], str):
-            return ("a", self._ap(s[1]), self.attrs.get(s[2], s[2]))
+            return project_field(self._ap(s[1]), self.attrs.get(s[2], s[2]))
         if tag == "poly":
             return self._poly(s).to_s()
         if tag == "lt0":
@@ -1094,8 +1143,15 @@ def compose(*sigmas: Sigma) -> Callable[[S], S]:
 
 
 # ------------------------------------------------------------------- helpers
-def canon_function(fi: FuncInfo, model: Optional[Model] = None, opts: Optional[CanonOptions] = None) -> tuple:
-    return Canon(fi, model, opts).function()
+def canon_function(fi: FuncInfo, model: Optional[Model] = None, opts: Optional[CanonOptions] = None, normal: bool = True,
+                   expand: bool = False) -> tuple:
+    """canonical form of a function.  normal: inlining-independent normal form (see normalize).  expand: additionally
+    look through every single-definition local that is not mutated, even when its definition contains a call and it
+    is used several times (for rules that match shapes and do not care about the identity of call results)."""
+    c = Canon(fi, model, opts).function()
+    if expand:
+        return normalize(c, keep_identity=False)
+    return normalize(c) if normal else c
 
 
 def canon_statements(fi: FuncInfo, stmts: list[ast.stmt], model: Optional[Model] = None,
@@ -1219,7 +1275,7 @@ def diff_paths(a: S, b: S, path: str = "") -> list[str]:
     return out
 
 
-def single_defs(block: tuple) -> dict:
+def single_defs(block: tuple, keep_identity: bool = True) -> dict:
     """numbered locals ('v', k) that are assigned exactly once in the whole block (and never augmented, swapped or
     used as a loop target) -> their right-hand side.  Lets a rule look through a local regardless of whether the
     canonicaliser chose to inline it."""
@@ -1258,7 +1314,113 @@ def single_defs(block: tuple) -> dict:
             for y in x:
                 rec(y)
     rec(block)
-    return {v: e for v, e in rhs.items() if count[v] == 1 and v not in banned}
+    uses: dict = {}
+
+    def cnt(x):
+        if isinstance(x, tuple) and x:
+            if len(x) == 2 and x[0] == "v":
+                uses[x] = uses.get(x, 0) + 1
+                return
+            for y in x:
+                cnt(y)
+    cnt(block)
+    out = {}
+    for v, e in rhs.items():
+        if count[v] != 1 or v in banned:
+            continue
+        n_uses = uses.get(v, 0) - 1            # minus the occurrence as assignment target
+        if keep_identity and n_uses > 1 and _has_effectful_call(e):
+            continue                            # e.g. fresh = self.newaux() used twice: keep the identity
+        out[v] = e
+    return out
+
+
+_VALUE_FN = {("g", n) for n in VALUE_BUILTINS} | {("g", n) for n in PAIR_FIELDS}
+
+
+def _has_effectful_call(e: S) -> bool:
+    """does the expression contain a call other than the fixed list of value-returning builtins / value records?"""
+    found = False
+
+    def rec(x):
+        nonlocal found
+        if found or not isinstance(x, tuple) or not x:
+            return
+        if x[0] == "c" and len(x) == 4:
+            fn = x[1]
+            ok = fn in _VALUE_FN or (isinstance(fn, tuple) and len(fn) == 3 and fn[0] == "a" and
+                                     (fn[1] == ("g", "math") or fn[2] in ("items", "values", "keys", "get", "copy")))
+            if not ok:
+                found = True
+                return
+        for y in x:
+            rec(y)
+    rec(e)
+    return found
+
+
+class Normalizer:
+    """The inlining-independent normal form of a raw canonical block, plus the substitution that produced it, so
+    that other expressions of the same function (branch conditions, call arguments taken from the CFG) can be put
+    into the same terms."""
+
+    def __init__(self, raw_block: tuple, keep_identity: bool = True):
+        self.rounds: list = []
+        block = raw_block
+        defs = single_defs(block, keep_identity)
+        for _ in range(6):
+            if not defs:
+                break
+            self.rounds.append(defs)
+            block = _drop_sets(deref(block, defs), set(defs))
+            defs = single_defs(block, keep_identity)
+        mapping: dict = {}
+
+        def rec(x):
+            if isinstance(x, tuple):
+                if len(x) == 2 and x[0] == "v" and isinstance(x[1], int):
+                    if x not in mapping:
+                        mapping[x] = ("v", len(mapping))
+                    return
+                for y in x:
+                    rec(y)
+        rec(block)
+        rec(raw_block)      # variables that vanished from the block still get distinct numbers
+        self.mapping = mapping
+        self.identity = all(k == v for k, v in mapping.items())
+        self.block = block if self.identity else Sigma(raw_subst=mapping).apply(block)
+
+    def apply(self, s: S) -> S:
+        for defs in self.rounds:
+            s = deref(s, defs)
+        return s if self.identity else Sigma(raw_subst=self.mapping).apply(s)
+
+
+def normalize(block: tuple, keep_identity: bool = True) -> tuple:
+    """Normal form independent of the canonicaliser's inlining decisions: every eliminable single-definition local
+    (see single_defs) is replaced by its definition and its assignment dropped; the remaining numbered locals are
+    re-numbered by first occurrence."""
+    return Normalizer(block, keep_identity).block
+
+
+def _drop_sets(block: tuple, vars_: set) -> tuple:
+    out = []
+    for st in block:
+        if isinstance(st, tuple) and st:
+            if st[0] == "set" and len(st) == 3 and st[1] in vars_:
+                continue
+            if st[0] == "if" and len(st) == 4:
+                st = mk_if(st[1], _drop_sets(st[2], vars_), _drop_sets(st[3], vars_))
+            elif st[0] == "for" and len(st) == 5:
+                st = ("for", st[1], st[2], _drop_sets(st[3], vars_), _drop_sets(st[4], vars_))
+            elif st[0] == "while" and len(st) == 4:
+                st = ("while", st[1], _drop_sets(st[2], vars_), _drop_sets(st[3], vars_))
+            elif st[0] == "with" and len(st) == 3:
+                st = ("with", st[1], _drop_sets(st[2], vars_))
+            elif st[0] == "try" and len(st) == 5:
+                st = ("try", _drop_sets(st[1], vars_), tuple((h[0], _drop_sets(h[1], vars_)) for h in st[2]), _drop_sets(st[3], vars_), _drop_sets(st[4], vars_))
+        out.append(st)
+    return tuple(_merge_guard_chain(out))
 
 
 class _Deref(Sigma):
